@@ -123,6 +123,11 @@ ERROR_ARRAY_ACCESS_WITH_NONSCALAR = ErrorMessage(
 ERROR_ARRAY_ACCESS_WITH_NONINTEGER = ErrorMessage(
     2010, Severity.ERROR, """Array access requires an integer, got '{}'."""
 )
+ERROR_INVALID_CONSTRUCTOR_ARGUMENTS = ErrorMessage(
+    2011,
+    Severity.ERROR,
+    """Cannot construct '{}' from the arguments ({}).""",
+)
 
 ERROR_AMBIGUOUS_FUNCTION_CALL = ErrorMessage(
     2101, Severity.ERROR, """Ambiguous function call: '{}'."""
